@@ -422,11 +422,28 @@ func (g *storeGen) syncBack() {
 	}
 }
 
+// bulk: a batch of pseudo-random inserts in one op
+func (g *storeGen) bulk(t *gTrie) {
+	n, seed := 2+g.r.Intn(10), g.r.Uint64()
+	g.emit("bulk %d %d %d", t.id, n, seed)
+	x := seed
+	for i := 0; i < n; i++ {
+		var p string
+		var v []byte
+		x, p, v = bulkNext(x)
+		t.content[p] = hx(v)
+	}
+	g.markStale(t.id)
+}
+
 func (g *storeGen) txn() {
 	blk := g.tries[0]
 	switch x := g.r.Intn(100); {
 	case x < 50: // one transaction, optionally with a nested one
 		c := g.open(0)
+		if g.r.Intn(100) < 1 {
+			g.bulk(c)
+		}
 		g.someOps(c, 4)
 		if g.r.Intn(100) < 30 {
 			gc := g.open(c.id)
@@ -584,6 +601,9 @@ func (g *storeGen) round(fork bool) {
 			g.usedVersions[w] = true // no later child version / donor origin may repeat it (identical nodes would come back under dead keys)
 		}
 	}
+	if g.r.Intn(100) < 2 {
+		g.bulk(blk) // small batches: the model driver checks its closed form of a batch against the literal model
+	}
 	if g.r.Intn(100) < 30 {
 		g.someOps(blk, 3)
 	}
@@ -681,6 +701,15 @@ func (g *storeGen) round(fork bool) {
 
 func genStoreCase(prof storeProfile) func(r *rand.Rand, tier string, idx int) []string {
 	return func(r *rand.Rand, tier string, idx int) []string {
+		// a few large histories per run that sit exactly at the batch constants of the code (mptstore_big.go)
+		switch {
+		case prof.name == "c03" && idx%800 == 250:
+			return genBigChanges(r, true)
+		case prof.name == "c04" && idx%300 == 150:
+			return genBigChanges(r, false)
+		case prof.name == "c05" && idx%350 == 100:
+			return genBigPrune(r, idx/350)
+		}
 		g := &storeGen{r: r, prof: prof, keys: genKeyUniverse(r), version: r.Intn(4), savedMap: map[string]string{}, usedVersions: map[int]bool{}, saveFailAttempts: 60, verShapes: os.Getenv("VERIF_VERSION_SHAPES") != "0"}
 		if tier == "thorough" {
 			g.saveFailAttempts = 400
